@@ -398,6 +398,9 @@ func parseChain(s string) ([]spec, bool) {
 
 func exec(op string) (string, string) {
 	f := strings.Fields(op)
+	if len(f) == 4 && f[0] == "dkg" {
+		return execDKG(f)
+	}
 	if len(f) != 6 || f[0] != "sync" {
 		return "bad-op", "bad"
 	}
@@ -599,7 +602,14 @@ func genEvents(r *hx.Rng, h0, start uint64, total uint64, n int) string {
 }
 
 func gen(r *hx.Rng, n int, tier string) []string {
+	// the caller chaining both machines: one full ExecuteDKG run with a member that learns late
+	// about the GJKR end block (thorough: more variants)
+	// (quick: the corpus case `dkg 3 2 1` only; thorough: more variants)
 	var ops []string
+	if tier == "thorough" {
+		ops = append(ops, "dkg 3 0 0", fmt.Sprintf("dkg 3 %d %d", r.Range(1, 3), r.Range(1, 2)),
+			fmt.Sprintf("dkg 4 %d %d", r.Range(1, 4), r.Range(1, 3)))
+	}
 	for i := 0; i < n; i++ {
 		mode := "det"
 		if r.Chance(1, 4) {
